@@ -223,6 +223,38 @@ def c10_bounded(tier="quick", seed=0):
     return out
 
 
+# ---- bounded: what a construction may cost before it is refused ----------------------------------------------------------
+def _construct_case(pat):
+    import tracemalloc, time
+    from microjs.regex import RegExp
+    tracemalloc.start()
+    t0 = time.process_time()
+    try:
+        RegExp(pat)
+        res = "ok"
+    except Exception as e:  # noqa
+        res = type(e).__name__
+    peak = tracemalloc.get_traced_memory()[1]
+    tracemalloc.stop()
+    return pat, res, peak, time.process_time() - t0
+
+
+@groups.group(id="C10.bounded.construction-cost", prop="C10", kind="B", functions=["microjs.regex.compiler:RegexCompiler._compile_quantifier", "microjs.regex.compiler:RegexCompiler._emit"])
+def c10_construction_cost(tier="quick", seed=0):
+    """huge counted quantifiers over every kind of body: the construction succeeds or is refused with RegExpError after
+    bounded work -- the program size limit applies to every way of emitting code (at most 160 MB traced and 30 s of CPU;
+    the unchanged engine needs under 70 MB and 3 s)"""
+    import multiprocessing as mp
+    bodies = ["a", ".", "[ab]", "\\d", "(?:a|b)", "(a)", "(?:ab)", "\\b", "(?=a)", "a?", "[^a]", "\\1(a)"]
+    counts = ["{20000000}", "{999999999}", "{0,20000000}", "{20000000,}", "{5,30000000}"]
+    cases = [b + q for b in bodies for q in counts]
+    with mp.get_context("fork").Pool(8) as pool:
+        res = pool.map(_construct_case, cases)
+    bad = [(p, r, pk, dt) for p, r, pk, dt in res if r not in ("ok", "RegExpError") or pk > 160e6 or dt > 30]
+    return [ob("C10.bounded.construction-cost", not bad, "B", f"{len(cases)} huge counted quantifiers" if not bad else f"new RegExp({bad[0][0]!r}): {bad[0][1]}, peak {bad[0][2] / 1e6:.0f} MB, {bad[0][3]:.1f} s",
+               witness=(f"new RegExp({bad[0][0]!r})" if bad else None), confirmed=True if bad else None, domain=len(cases))]
+
+
 # =======================================================================================================================
 # K1: the pattern parser's cursor and its numeric sub-parsers, for every pattern text and position
 # =======================================================================================================================
@@ -302,3 +334,10 @@ def c_rxparser_is_quantifier_start(ps: Obj("RegexParser"), pat: Str, pos: IntRan
 _QS = "microjs.regex.parser:RegexParser._is_quantifier_start"
 register(c_rxparser_is_quantifier_start, id="C10.RegexParser._is_quantifier_start", prop="C10", target=method("microjs.regex.parser", "RegexParser._is_quantifier_start"),
          native=_native_rxp("_is_quantifier_start"), invariants={(_QS, 0): inv_qstart, (_QS, 1): inv_qstart})
+
+
+@groups.group(id="C10.struct.process-state", prop="C10", kind="K3", functions=["microjs (module-level state)"])
+def c10_process_state(tier="quick", seed=0):
+    """budgets and deadlines belong to one construction / one match: nothing compiled or counted is kept in the process (the analysis of C12)"""
+    from contracts.C12_context import process_state
+    return process_state("C10", tier, seed)
